@@ -89,6 +89,11 @@ func c10Scenarios() []scenario {
 		for b := a; b < len(ops); b++ {
 			if charsetOps[ops[a].name] || charsetOps[ops[b].name] {
 				add(&legacyPairs, c10p{a: a, b: b, c: -1, traffic: true, legacy: true})
+				if ops[a].sim && ops[b].sim {
+					// the simulation screen in a single-byte charset: unencodable runes go
+					// through its fallback table
+					add(&legacyPairs, c10p{a: a, b: b, c: -1, sim: true, legacy: true})
+				}
 			}
 		}
 	}
@@ -136,7 +141,11 @@ func c10prog(ps string, res *result) func() {
 		var s tcell.Screen
 		var r *rig
 		if p.sim {
-			ss := tcell.NewSimulationScreen("UTF-8")
+			cs := "UTF-8"
+			if p.legacy {
+				cs = "US-ASCII"
+			}
+			ss := tcell.NewSimulationScreen(cs)
 			if err := ss.Init(); err != nil {
 				panic(err)
 			}
